@@ -23,7 +23,7 @@ import itertools
 
 from .. import tlc as T
 from .. import srtvtt_vtt as V
-from ..srtvtt_common import gen_doc, validate
+from ..srtvtt_common import gen_doc, validate, apply_fragment
 
 PID = "C11"
 LEVEL = "model_checking"
@@ -364,6 +364,7 @@ def run(ctx):
     k = next((j for j, m in enumerate(meta) if m["source"] == src), 0)
     ctx.sample({"source": src, "text": meta[k]["text"], "observed_regions": recs[k]["obs"]["regs"],
                 "observed_first_paragraph": {a: b for a, b in (recs[k]["obs"]["ps"][0].items() if recs[k]["obs"]["ps"] else []) if a != "items"}})
+  apply_fragment(ctx)
   ctx.exhaustive = True
   ctx.assume("the harness lexer (harness/srtvtt_vtt.py: line -> blank/signature/arrow/keyword/timing/settings/characters) is "
              "trusted; file structure, tokenizer, tree builder and geometry are decided by spec/VttReader.tla")
